@@ -652,6 +652,36 @@ func runC03(r *Run) {
 	}
 	r.Floor("R8", "StateDB.SetNonce call sites in keeper code", nSet, 2)
 	c03MessageList(r)
+	c03ChainRunsThrough(r)
+}
+
+// c03ChainRunsThrough (C03 R12): no decorator ends its chain with success.
+func c03ChainRunsThrough(r *Run) {
+	P := r.P
+	r.Rule("R12", "PATH.no-decorator-ends-the-chain: in every Haqq decorator of the three ante chains, each success exit of AnteHandle passes the call of next — a decorator that returns (ctx, nil) on some branch (a 'nothing to do' fast path) silently drops every decorator behind it: public-key set-up, signature verification and the sequence increment sit at the end of the Cosmos chains, so such a transaction is executed unauthenticated and can be replayed")
+	n := 0
+	seen := map[*ssa.Function]bool{}
+	for _, cn := range []string{"newEVMAnteHandler", "newCosmosAnteHandler", "newLegacyCosmosAnteHandlerEip712"} {
+		c := anteChains(r)[cn]
+		if c == nil {
+			continue
+		}
+		for _, d := range c.Decors {
+			if d.Handle == nil || seen[d.Handle] {
+				continue
+			}
+			seen[d.Handle] = true
+			n++
+			isNext := nextCallPred(d.Handle)
+			w := PathQuery{Fn: d.Handle, Block: isNext, Target: func(in ssa.Instruction) bool {
+				ret, ok := in.(*ssa.Return)
+				return ok && classifyExit(ret) == ExitSuccess
+			}}.Search()
+			r.Check(w == nil, "R12", fnID(d.Handle)+"#runs-through", P.Pos(fnPos(d.Handle)), "every success exit passes next",
+				"the decorator can return success without calling next: the rest of the chain (for the Cosmos routes: signature verification and the sequence increment) is skipped for that transaction", P.witness(w)...)
+		}
+	}
+	r.Floor("R12", "Haqq decorators in the three chains", n, 17)
 }
 
 // c03MessageList (C03 R11): the EIP-712 typed data is built from the whole message list.
